@@ -510,3 +510,7 @@ impl fmt::Debug for Instructions<'_> {
 fn test_sizes() {
     assert_eq!(std::mem::size_of::<Instruction>(), 32);
 }
+
+#[cfg(kani)]
+#[path = "/verif/kani/compiler_instructions.rs"]
+mod verif_kani;
